@@ -11,10 +11,19 @@ def conc_index(I, v, what='index'):
     return I.concretize(v, 64, what=what)
 
 
+def _cmp_bits(a, b, bits):
+    """width of a comparison: the width of the symbolic operand(s) wins over the default"""
+    for v in (a, b):
+        if type(v) is Sym and z3.is_bv(v.e):
+            return v.e.size()
+    return bits
+
+
 def sym_lt(I, a, b, signed=False, bits=64):
     """a < b for possibly symbolic ints -> bool or Sym"""
     if type(a) is not Sym and type(b) is not Sym:
         return a < b
+    bits = _cmp_bits(a, b, bits)
     x, y = I.to_bv(a, bits), I.to_bv(b, bits)
     return Sym((x < y) if signed else z3.ULT(x, y))
 
@@ -22,6 +31,7 @@ def sym_lt(I, a, b, signed=False, bits=64):
 def sym_le(I, a, b, signed=False, bits=64):
     if type(a) is not Sym and type(b) is not Sym:
         return a <= b
+    bits = _cmp_bits(a, b, bits)
     x, y = I.to_bv(a, bits), I.to_bv(b, bits)
     return Sym((x <= y) if signed else z3.ULE(x, y))
 
@@ -1572,11 +1582,14 @@ def float_to_bits(I, args, callee):
     return struct.unpack('<Q', struct.pack('<d', v))[0]
 
 
-@model('float::from_bits', 'f64::from_bits')
+@model('float::from_bits', 'f64::from_bits', 'f32::from_bits')
 def float_from_bits(I, args, callee):
     v = args[0]
+    is32 = 'f32' in callee
     if type(v) is Sym:
-        return Sym(z3.fpBVToFP(v.e, z3.Float64()))
+        return Sym(z3.fpBVToFP(v.e, z3.Float32() if (is32 or v.e.size() == 32) else z3.Float64()))
+    if is32:
+        return struct.unpack('<f', struct.pack('<I', v & 0xFFFFFFFF))[0]
     return struct.unpack('<d', struct.pack('<Q', v))[0]
 
 
